@@ -220,7 +220,7 @@ func randCfg(r *common.Rng, big bool) dcfg {
 	c.one = r.Intn(2)
 	c.delta = r.Pick(0, 1, 20, 50, 200)
 	c.count = r.Pick(1, 1, 2, 3)
-	c.thresh = r.Pick(0, 1000, 2900, 28000)
+	c.thresh = r.Pick(0, 1000, 2900, 2900, 28000, 40000, 60000) // also above 32767: 16-bit differences to the threshold must not wrap
 	c.warmer = r.Intn(2)
 	return c
 }
